@@ -195,10 +195,13 @@ def run_shard(desc):
         wit_room = {'attr_block_len': alen, 'room_for_one': room_for_one}
         include_withdraw = r.random() < 0.7
         via = r.choice(['direct', 'direct', 'rib'])
-        if mode == 'both':
-            via = 'rib'  # OutgoingRIB.updates() never puts announcements and withdrawals in one UpdateCollection
+        # OutgoingRIB.updates() never puts announcements and withdrawals in one UpdateCollection, but the generator
+        # accepts both and the statement says "any set of routes to announce and withdraw": mode 'both' is driven
+        # through the RIB and directly
         wit = {'session': c01.sname(k), 'mix': mix, 'mode': mode, 'attr_target': target, 'communities': ncomm, 'announce': len(routes_a), 'withdraw': len(routes_w), 'include_withdraw': include_withdraw, 'via': via, 'attrs_text': atext[:200], 'max': maxsize}
         cls = f'{maxsize}:{mix}:{mode}:{regime}'
+        if mode == 'both' and via == 'direct':
+            res.count('direct-collection-with-announces-and-withdraws')
         raws = []
         try:
             if via == 'direct':
